@@ -6,9 +6,13 @@ import (
 	"fmt"
 	"io"
 	"mime"
+	"net/http"
 	"os"
 	"path"
+	"regexp"
 	"strings"
+
+	"github.com/tdewolff/minify/v2"
 
 	"verif/corpus"
 	"verif/sim"
@@ -31,6 +35,9 @@ func plainReference(mediatype string, data []byte, key string) *plainRef {
 		return r
 	}
 	m := NewRegistry(DefaultOptions())
+	if strings.HasSuffix(key, ":fallback") {
+		addFallback(m)
+	}
 	op := &Op{Entry: EPlain, MT: mediatype, In: data, R: sim.NewSimReader(nil, data), W: sim.NewSimWriter(nil)}
 	op.Exec(nil, m)
 	r := &plainRef{Out: op.Out, Err: op.Err, W: op.W.Calls}
@@ -45,6 +52,10 @@ func plainReference(mediatype string, data []byte, key string) *plainRef {
 	plainRefCache[key] = r
 	return r
 }
+
+var fallbackRe = regexp.MustCompile(`^(text/plain)?$`)
+
+func addFallback(m *minify.M) { m.AddFuncRegexp(fallbackRe, streamStub) }
 
 var c12Entries = []int{EPlain, EBytes, EString, EReader, EWriter, ERespWriter, EMiddleware, EMiddleErr, EMatch}
 
@@ -190,6 +201,16 @@ func c12Case(env *Env, tape *sim.Tape) *CaseOut {
 		op.Status = []int{0, 200, 404}[statusMode]
 		op.Method = []string{"", "GET", "HEAD", "POST"}[int(mask>>3)%4]
 		op.EarlyHints = (mask>>5)%8 == 7
+		switch (mask >> 8) % 8 {
+		case 3:
+			op.ReqHeader = http.Header{"Range": {"bytes=0-"}, "Accept": {"*/*"}}
+		case 4:
+			op.ReqHeader = http.Header{"Accept-Encoding": {"gzip, br"}, "If-None-Match": {`"v1"`}, "Cache-Control": {"no-transform"}}
+		case 5:
+			op.ReqHeader = http.Header{"Range": {"bytes=2-5"}, "If-Modified-Since": {"Mon, 02 Jan 2006 15:04:05 GMT"}, "Content-Type": {"text/plain"}}
+		case 6:
+			op.ReqHeader = http.Header{}
+		}
 		expectMT = op.ContentType
 		if expectMT == "" {
 			// "falling back to the request path extension": the path, not the query
@@ -205,8 +226,18 @@ func c12Case(env *Env, tape *sim.Tape) *CaseOut {
 	if sized && partMode == 0 {
 		refKey = fmt.Sprintf("sized:%s:%d", doc.MT, len(data))
 	}
+	// one registry in four also has a catch-all for responses without any type (and for
+	// text/plain): what the wrappers make of an empty media type must be what a call makes of it
+	fallback := (mask>>11)%4 == 3
+	if fallback {
+		refKey += ":fallback"
+		out.stat("probe_registry_with_fallback_for_untyped", 1)
+	}
 	ref := plainReference(expectMT, data, refKey)
 	m := NewRegistry(DefaultOptions())
+	if fallback {
+		addFallback(m)
+	}
 	var sv *sim.Violation
 	var st RunStats
 	scheduled := !(entry == EBytes || entry == EString)
